@@ -119,6 +119,38 @@ func checkC16(c *core.Ctx) {
 			}
 		}
 	}
+	// (1b) dimensions beyond the bound, one configuration each, and an upstream
+	// weighting whose elements cancel exactly
+	for _, bdo := range [][3]int{{1, 5, 4}, {5, 1, 7}, {7, 6, 5}, {1, 33, 2}, {2, 2, 33}, {33, 3, 1}} {
+		for wi := 0; wi < 3; wi++ {
+			bdo, wi := bdo, wi
+			c.Case(fmt.Sprintf("gradbig/%v/w%d", bdo, wi), true, func() core.Verdict {
+				x := enum.Generic([]int{bdo[0], bdo[1]}, 851, 0.5, 3, true)
+				w := enum.Generic([]int{bdo[2]}, 852, 0.5, 3, true)
+				b := enum.Generic([]int{bdo[2]}, 853, 0.5, 3, true)
+				p := &ref.Program{Leaves: []*ref.T{x, w, b}, Tracked: []bool{true, true, true},
+					Nodes: []ref.Node{{Op: ref.Op{K: "FC"}, In: []int{0, 1, 2}}}}
+				root := 3
+				if wi >= 1 {
+					p, root = withWeighting(p, root, 33)
+				}
+				if wi == 2 {
+					wt := p.Leaves[len(p.Leaves)-1]
+					for i := 0; i+1 < len(wt.V); i += 2 {
+						wt.V[i+1] = -wt.V[i]
+					}
+					if len(wt.V)%2 == 1 {
+						wt.V[len(wt.V)-1] = 0
+					}
+				}
+				v := gradCase(p, root, gradOpts{allowKF: true})
+				if !v.OK && !v.Skip {
+					v.Detail = describeProgram(p) + " :: " + v.Detail
+				}
+				return v
+			})
+		}
+	}
 	// (3) default initializers under a seeded source: W ~ XavierUniform(Inputs, Outputs), B = 0
 	for D := 1; D <= maxDim; D++ {
 		for O := 1; O <= maxDim; O++ {
